@@ -170,7 +170,13 @@ def minimise(arm, prop, armed, tape_list, violation, budget_s=40.0):
     sim = arm.sim
     key = (violation["property"], violation["class_key"])
 
+    # wall-clock cap for the whole minimisation of one class (it shapes the replay file only, never the verdict): every
+    # candidate of a hang class runs to the full step budget, and schema simplification alone may try 100+ candidates
+    deadline = time.time() + 4 * budget_s
+
     def same(plan):
+        if time.time() > deadline:
+            return False
         res = sim.execute(plan, armed)
         v = res.get("violation")
         return bool(v) and (v["property"], v["class_key"]) == key
